@@ -392,7 +392,7 @@ ChNlAt(j) ==
   /\ UNCHANGED <<msgs, ref, x, eof, copen, hdr, held, bleft, tr, delivered, reqRecorded, reqSent, outcome, connClosed,
                  leftover, unseen, stalled, reqRecs, respRecs, reqBlock, respBlock, linked, fresh, warcDone>>
 
-\* ---- read_trailer: lines until a blank one - or EOF (readline returns b'' there: finding 11);
+\* ---- read_trailer: lines until a blank one; end of stream before it is an error (was: taken for the blank line);
 \*      then response.fields.parse(trailer) in strict mode: a line without a colon raises ValueError
 RECURSIVE BadTrailer(_)
 BadTrailer(s) ==
@@ -407,7 +407,9 @@ TrailerAt(j) ==
   /\ TakeLine(j)
   /\ LET l == TheLine
          t == tr \o l IN
-     IF Blank(l)
+     \* (end of stream inside the trailer section: the message is cut short - NetworkError, as in read_chunk_header)
+     IF ~EndsLF(l) THEN Raise("network_error") /\ UNCHANGED <<tr, recorded>>
+     ELSE IF Blank(l)
      THEN /\ Notify(t) /\ tr' = <<>>
           /\ IF BadTrailer(t) /\ ~FixTrailer THEN Raise("other_error") ELSE pc' = "fin" /\ UNCHANGED err
      ELSE tr' = t /\ UNCHANGED <<pc, err, recorded>>
